@@ -207,7 +207,9 @@ fn place_cie(ctx: &mut Ctx, place: u64, encb: u8, with: bool, addr: u8, big: boo
                     }
                 }
             }
-            (Ok(_), Err(gimli::Error::UnsupportedIndirectPointer)) if encb & 0x80 != 0 => ctx.outcome("enc:fde-address-indirect-refused"),
+            // an FDE whose address encoding carries the indirect flag is well-formed and must be
+            // reported (gimli reports the stored pointer); refusing it would also abort every
+            // linear lookup in the section
             (Err(PtrExp::Omit), Err(_)) => ctx.outcome("enc:R-omit-refused"),
             (Err(e), Err(g)) if err_ok_for(&e, g, encb) => ctx.outcome(class(&e)),
             (e, g) => {
